@@ -5,9 +5,12 @@ import (
 	"encoding/json"
 	"fmt"
 	"strings"
+	"sync"
 	"time"
 
+	"github.com/samsarahq/thunder/batch"
 	"github.com/samsarahq/thunder/graphql"
+	"github.com/samsarahq/thunder/reactive"
 )
 
 // ---- schedulers ----
@@ -141,6 +144,16 @@ func classify(err error, qname string) Observed {
 
 // Exec parses, prepares and executes the query text against the built schema under the scheduler.
 func Exec(b *Built, text string, vars map[string]interface{}, sched graphql.WorkScheduler) (obs Observed) {
+	return exec(b, text, vars, sched, false)
+}
+
+// ExecRerunner does the same inside a reactive.Rerunner, as the HTTP handler and the websocket
+// connection do: expensive fields then go through the reactive cache.
+func ExecRerunner(b *Built, text string, vars map[string]interface{}, sched graphql.WorkScheduler) (obs Observed) {
+	return exec(b, text, vars, sched, true)
+}
+
+func exec(b *Built, text string, vars map[string]interface{}, sched graphql.WorkScheduler, rerun bool) (obs Observed) {
 	done := make(chan Observed, 1)
 	go func() {
 		var o Observed
@@ -163,7 +176,26 @@ func Exec(b *Built, text string, vars map[string]interface{}, sched graphql.Work
 			return
 		}
 		ex := graphql.NewExecutor(sched)
-		val, err := ex.Execute(context.Background(), b.Schema.Query, nil, q)
+		var val interface{}
+		if rerun {
+			fin := make(chan struct{})
+			var once sync.Once
+			rr := reactive.NewRerunner(context.Background(), func(ctx context.Context) (interface{}, error) {
+				v, e := ex.Execute(batch.WithBatching(ctx), b.Schema.Query, nil, q)
+				once.Do(func() { val, err = v, e; close(fin) })
+				return nil, nil
+			}, time.Hour, false)
+			select {
+			case <-fin:
+			case <-time.After(15 * time.Second):
+				rr.Stop()
+				o = Observed{Stage: "harness", Class: "timeout", Text: "rerunner never ran"}
+				return
+			}
+			rr.Stop()
+		} else {
+			val, err = ex.Execute(context.Background(), b.Schema.Query, nil, q)
+		}
 		if err != nil {
 			o = classify(err, q.Name)
 			if val != nil {
